@@ -35,19 +35,29 @@ MIN_HOSTS = 40   # hosts of the item tried as alternative witnesses while minimi
 # pools: (exact number of skeleton nodes, deviation bound)
 TIERS = {
     "quick": {"pairs": [((1, 2), [(1, 1), (2, 1), (3, 0)]),
-                        ((2, 1), [(1, 1), (2, 1), (3, 0)])],
+                        ((2, 1), [(1, 1), (2, 1), (3, 0)]),
+                        # optional-variable focus pool (menus restricted to optional value / attribute variables, fresh
+                        # or used again): 2 skeleton nodes, 3 deviations
+                        (("2opt", 3), [(1, 1), (2, 1), (3, 0)])],
               "block": 60000},
     "thorough": {"pairs": [((1, 2), [(1, 2), (2, 2), (3, 1)]),
                            ((2, 2), [(1, 2), (2, 1), (3, 0)]),
                            ((2, 1), [(2, 2), (3, 1)]),
                            ((3, 1), [(3, 1)]),
-                           ((3, 0), [(3, 2), (4, 0)])],
+                           ((3, 0), [(3, 2), (4, 0)]),
+                           (("2opt", 4), [(2, 2), (3, 1)]), (("3opt", 3), [(2, 1), (3, 1)])],
                  "block": 250000},
 }
 
 
+def _pdriver(n):
+    if isinstance(n, str) and n.endswith("opt"):
+        return G.pattern_driver(int(n[:-3]), exact=True, focus="opt")
+    return G.pattern_driver(n, exact=True)
+
+
 def pattern_pool(n, bound, stats=None):
-    drv = G.pattern_driver(n, exact=True)
+    drv = _pdriver(n)
     return [(G.enc(picks), pat) for picks, pat in explore.explore(drv, bound=bound, stats=stats)]
 
 
@@ -112,7 +122,7 @@ _PD, _HD = {}, {}
 
 def _pat_from(pn, code):
     if pn not in _PD:
-        _PD[pn] = G.pattern_driver(pn, exact=True)
+        _PD[pn] = _pdriver(pn)
     return explore.replay(_PD[pn], G.dec(code))[0]
 
 
